@@ -475,8 +475,13 @@ fn cmd_life(a: &Args) -> i32 {
             ("tp", true) => wl_life::run_life::<Option<Tp<1>>, FillFastSlots>(&p, &cfg),
             ("arc", false) => wl_life::run_life::<Option<std::sync::Arc<Payload>>, DefaultStrategy>(&p, &cfg),
             ("arc", true) => wl_life::run_life::<Option<std::sync::Arc<Payload>>, FillFastSlots>(&p, &cfg),
-            _ => panic!("val=tp|arc"),
+            ("weak", false) => wl_life::run_life::<std::sync::Weak<Payload>, DefaultStrategy>(&p, &cfg),
+            ("weak", true) => wl_life::run_life::<std::sync::Weak<Payload>, FillFastSlots>(&p, &cfg),
+            _ => panic!("val=tp|arc|weak"),
         };
+        if val == "weak" {
+            tp::weak_keeper_clear();
+        }
         n += 1;
         runner::with(|r| {
             r.execs += 1;
@@ -502,7 +507,7 @@ fn cmd_life(a: &Args) -> i32 {
             r.extra.insert("hashes".into(), json!(hs));
         });
     }
-    if val == "arc" {
+    if val == "arc" || val == "weak" {
         let live = tp::ARC_LIVE.load(std::sync::atomic::Ordering::Relaxed);
         if live != 0 {
             runner::violation("C02", "arc-leak", format!("{} Arc payload(s) alive after everything was dropped", live), &json!({"workload": "life", "seed": seed, "shard": shard}));
